@@ -493,12 +493,10 @@ def rewrite_fn(text, contract, report, make_pub=True):
     for anchor, ghost, where_ in contract.get("at", []):
         if where_ in ("loop_end", "loop_start"):
             continue
-        pos = text.find(anchor, st[body_open].start)
-        if pos < 0 or text.find(anchor, pos + 1) >= 0 and False:
+        pos = text.rfind(anchor) if where_ == "before_last" else text.find(anchor, st[body_open].start)
+        if pos < 0 or pos < st[body_open].start:
             raise ExtractError(f"lost anchor in {contract['name']}: {anchor!r}")
-        if pos < 0:
-            raise ExtractError(f"lost anchor in {contract['name']}: {anchor!r}")
-        p = pos if where_ == "before" else pos + len(anchor)
+        p = pos if where_ in ("before", "before_last") else pos + len(anchor)
         g = ghost.strip()
         if g.startswith("raw:"):
             edits.append(Edit(p, p, " " + g[4:].strip() + " ", "R5"))
